@@ -1,0 +1,29 @@
+//go:build verif
+
+package state
+
+import (
+	"github.com/kardiachain/go-kardia/lib/common"
+	"github.com/kardiachain/go-kardia/lib/rlp"
+	"github.com/kardiachain/go-kardia/trie"
+	"github.com/kardiachain/go-kardia/types"
+)
+
+// Verification hook for the out-of-tree harness (/verif, property C09).  Add-only and read-only;
+// nothing here is compiled without the `verif` build tag.
+
+// VerifEachAccount iterates the account trie as it stands (call IntermediateRoot first so that
+// pending objects are in it) and hands every leaf (hashed address, decoded account) to cb.
+// Unlike RawDump it neither needs address preimages nor loads code and storage, so it can be
+// used to sum the balances of ALL accounts of a state cheaply.
+func (s *StateDB) VerifEachAccount(cb func(addrHash common.Hash, acc types.StateAccount)) error {
+	it := trie.NewIterator(s.trie.NodeIterator(nil))
+	for it.Next() {
+		var data types.StateAccount
+		if err := rlp.DecodeBytes(it.Value, &data); err != nil {
+			return err
+		}
+		cb(common.BytesToHash(it.Key), data)
+	}
+	return it.Err
+}
